@@ -107,6 +107,13 @@ def frameRun (j : Json) : Except String Json := do
       let incl ← getBool j "inclusive"
       let p : (Val → Except Err Bool) × Bool := (fun v => (f.call v).map Val.truthy, incl)
       pure (outsToJson notifToJson (runG (takeWhile (α := Val)).sys p [] acts))
+    | "retry" | "repeat" =>
+      let n := (getNat j "count").toOption
+      let f : BOut Val → Json := fun o => match o with
+        | .emit x => notifToJson x
+        | .resubscribe => Json.arr #[.str "R"]
+      if sys == "retry" then pure (outsToJson f (runG (retry (α := Val)) n [] acts))
+      else pure (outsToJson f (runG (repeat_ (α := Val)) n [] acts))
     | "pairwise" =>
       pure (outsToJson (fun n => notifToJson (pairN n)) (runG (pairwise (α := Val)).sys () [] acts))
     | _ => throw s!"unknown sys {sys}"
